@@ -411,6 +411,23 @@ func ruleGL3(c *Ctx) *rule {
 	r := &rule{ID: "GL3", Engine: "E3", Floor: 3,
 		Statement: "GlobWalk walks os.DirFS(<SpokFile.Dir>) with the declared pattern unchanged, matches are made absolute with the same root, and SpokFile.Globs is keyed by the very pattern that was expanded",
 		Necessity: "a different root, a rewritten pattern or a mismatched key makes a pattern denote files other than those matching it under the spokfile's directory"}
+	// a glob primitive that takes one path-and-pattern string: the root directory must not be part of what is matched
+	for _, f := range c.ModFuncs {
+		for _, site := range callSites(f) {
+			n := calleeName(site.Common())
+			if !(strings.HasSuffix(n, "doublestar/v4.FilepathGlob") || n == "path/filepath.Glob") || len(site.Common().Args) == 0 {
+				continue
+			}
+			ps := c.newSlicer()
+			ps.depth = 3
+			ps.fieldStop = true
+			pres := ps.run(site.Common().Args[0])
+			if pres.hasField("file.SpokFile.Dir") {
+				r.bad(fname(f)+" "+n+" pattern", c.ipos(site), "the directory of the spokfile is joined into the pattern: a *, ?, [ or { in the project's own path is matched as a metacharacter and every glob of such a project expands to nothing (or to something else)")
+				return r
+			}
+		}
+	}
 	for _, gw := range c.globWalks() {
 		// fsys
 		sl := c.newSlicer()
@@ -1238,7 +1255,9 @@ func ruleFD4(c *Ctx) *rule {
 		sl := c.newSlicer()
 		sl.depth = 0
 		res := sl.run(ret.Results[0])
-		if res.has(fw.w) && res.hasCall("path/filepath.Join") {
+		if res.hasCall("path/filepath.EvalSymlinks") || res.hasCall("os.Readlink") {
+			r.bad(key, c.ipos(ret), "the returned path is resolved through symbolic links: a spokfile that is a link makes the directory of its target the project root (cache, globs and --clean then work on another directory than the one the spokfile was found in)")
+		} else if res.has(fw.w) && res.hasCall("path/filepath.Join") {
 			r.ok(key, c.ipos(ret), "the returned path is built from the searched directory")
 		} else {
 			r.bad(key, c.ipos(ret), "the returned path is not built from the directory in which the entry was found")
